@@ -210,15 +210,52 @@ func Load(cfg Config) *Model {
 	if !ok {
 		Fatal("Decimal is not a struct")
 	}
+	// The seven fields are told apart by their TYPES (all distinct), so that renaming a field
+	// changes nothing here; constructs and messages use the canonical names below.
 	idx := map[string]int{}
+	canon := func(t types.Type) string {
+		if n, ok := t.(*types.Named); ok {
+			switch n.Obj().Name() {
+			case "dec":
+				return "mant"
+			case "RoundingMode":
+				return "mode"
+			case "Accuracy":
+				return "acc"
+			case "form":
+				return "form"
+			}
+		}
+		if b, ok := t.Underlying().(*types.Basic); ok {
+			switch b.Kind() {
+			case types.Int32:
+				return "exp"
+			case types.Uint32:
+				return "prec"
+			case types.Bool:
+				return "neg"
+			case types.Uint8:
+				return "form" // `type form byte` spelled as a plain byte
+			}
+		}
+		return ""
+	}
 	for i := 0; i < st.NumFields(); i++ {
-		idx[st.Field(i).Name()] = i
-		m.FieldN = append(m.FieldN, st.Field(i).Name())
+		name := st.Field(i).Name()
+		if c := canon(st.Field(i).Type()); c != "" {
+			if _, dup := idx[c]; !dup {
+				name = c
+			}
+		}
+		if _, dup := idx[name]; !dup {
+			idx[name] = i
+		}
+		m.FieldN = append(m.FieldN, name)
 	}
 	get := func(n string) int {
 		i, ok := idx[n]
 		if !ok {
-			Fatal("Decimal has no field %q", n)
+			Fatal("Decimal has no field that plays the role of %q", n)
 		}
 		return i
 	}
